@@ -158,6 +158,20 @@ theorem preservation (P : Prims) (r : Runner) : (e : TExpr) → (τ : Cls) → t
       simp at hv
       subst hv
       cases r <;> rfl
+  | .macroList isFilter elems bodies, τ, ht, _, v, hv => by
+      have hτ : τ = .list := by
+        simp only [typeOfE] at ht
+        split at ht <;> simp at ht
+        all_goals exact ht.2.symm
+      subst hτ
+      simp only [evalT] at hv
+      split at hv
+      · obtain ⟨x, _, hv⟩ := bind_ok _ _ _ hv
+        simp [ctx, wrapSpec] at hv
+        subst hv; rfl
+      · obtain ⟨x, _, hv⟩ := bind_ok _ _ _ hv
+        simp [ctx, wrapSpec] at hv
+        subst hv; rfl
   | .listLit es, τ, ht, _, v, hv => by
       simp only [typeOfE] at ht
       split at ht <;> simp at ht
@@ -261,6 +275,18 @@ theorem boolean_macro_yields_bool (P : Prims) (r : Runner) (k : Nat) (bodies : L
   simp at hv
   subst hv
   cases r <;> rfl
+
+/-- `map` and `filter` hand back a `ListType` whatever the range was (a list, or a map ranged over by its keys) -/
+theorem list_macro_yields_list (P : Prims) (r : Runner) (isFilter : Bool) (elems : List Val) (bodies : List TExpr) (v : Val)
+    (hv : evalT (ctx P r) (.macroList isFilter elems bodies) = .ok v) : clsOf v = .list := by
+  simp only [evalT] at hv
+  split at hv
+  · obtain ⟨x, _, hv⟩ := bind_ok _ _ _ hv
+    simp [ctx, wrapSpec] at hv
+    subst hv; rfl
+  · obtain ⟨x, _, hv⟩ := bind_ok _ _ _ hv
+    simp [ctx, wrapSpec] at hv
+    subst hv; rfl
 
 theorem logical_yields_bool (P : Prims) (r : Runner) (a b : TExpr) (v : Val) :
     (evalT (ctx P r) (.and a b) = .ok v → clsOf v = .bool) ∧ (evalT (ctx P r) (.or a b) = .ok v → clsOf v = .bool) :=
